@@ -579,7 +579,10 @@ def tainted_ids(prog) -> set:
                 blk(st["body"]["nodes"], a)
                 t |= a
                 t.add(st["id"])  # spox reports a Loop's carried output without a shape unless it is provably stable
-            elif op in ("inline", "reffn") or op in ML_MACROS:
+            elif op in ML_MACROS:
+                if any(a in t for a in st["args"]):
+                    t.add(st["id"])
+            elif op in ("inline", "reffn"):
                 pass  # declared / inferred output types are concrete
             elif op == "func":
                 inner = {p for p, a in zip(st["params"], st["args"]) if a in t}
@@ -736,6 +739,11 @@ class Gen:
                 if self.func_versions:
                     self.versions = self.func_versions
                 body, bt = self.block(params, set(), 1, 0, in_func=True)
+                if self.allow_ml and not bt and rng.random() < 0.35:
+                    mid = self.fresh()
+                    body["nodes"].append({"id": mid, "op": rng.choice(list(ML_MACROS)), "mv": rng.choice(ML_VERSIONS),
+                                          "dv": self.mv(), "args": [body["out"]]})
+                    body["out"] = mid
                 if self.func_versions and self.func_versions[0] in PIN:
                     op_, mv_ = PIN[self.func_versions[0]]
                     pid = self.fresh()
